@@ -13,7 +13,7 @@ use cosmwasm_std::{
     Uint128,
 };
 use serde::{de::DeserializeOwned, Deserialize, Serialize};
-use staking::msg::{ExecuteMsg, IBCLifecycleComplete, InstantiateMsg, QueryMsg, SudoMsg};
+use staking::msg::{ExecuteMsg, InstantiateMsg, QueryMsg, SudoMsg};
 use staking::types::{UnsafeNativeChainConfig, UnsafeProtocolChainConfig, UnsafeProtocolFeeConfig};
 use std::collections::BTreeMap;
 use std::panic::{catch_unwind, AssertUnwindSafe};
@@ -95,6 +95,10 @@ pub fn oracle_addr() -> String {
 pub fn n20(k: &K, label: &str) -> String {
     bech::addr(&k.native_prefix, &format!("native-{label}"), 20)
 }
+/// a 32-byte account of the native chain (interchain account, module or contract address)
+pub fn n32(k: &K, label: &str) -> String {
+    bech::addr(&k.native_prefix, &format!("native-{label}"), 32)
+}
 pub fn val(k: &K, label: &str) -> String {
     bech::addr(&format!("{}valoper", k.native_prefix), &format!("val-{label}"), 20)
 }
@@ -144,6 +148,8 @@ pub struct TxOut {
     pub unknown_msg: Option<String>,
     /// errors of dispatched (sub-)messages, kept even when a reply turned them into another error
     pub sub_errors: Vec<String>,
+    /// the chain-written JSON document (ibc-hooks callback / hook memo) could not be decoded by the contract
+    pub undecodable: bool,
 }
 
 #[derive(Clone, Debug, Hash, PartialEq, Eq)]
@@ -729,20 +735,22 @@ impl World {
         if !p.callback {
             return TxOut { ok: true, ..Default::default() };
         }
-        let msg = match kind {
-            0 => SudoMsg::IBCLifecycleComplete(IBCLifecycleComplete::IBCAck {
-                channel: SIM_CHANNEL.into(),
-                sequence: seq,
-                ack: "{\"result\":\"AQ==\"}".into(),
-                success: true,
-            }),
-            1 => SudoMsg::IBCLifecycleComplete(IBCLifecycleComplete::IBCAck {
-                channel: SIM_CHANNEL.into(),
-                sequence: seq,
-                ack: "{\"error\":\"ABCI code: 1\"}".into(),
-                success: false,
-            }),
-            _ => SudoMsg::IBCLifecycleComplete(IBCLifecycleComplete::IBCTimeout { channel: SIM_CHANNEL.into(), sequence: seq }),
+        // The callback is delivered as the JSON document the ibc-hooks module writes (osmosis
+        // x/ibc-hooks/wasm_hook.go: `{"ibc_lifecycle_complete": {"ibc_ack": {"channel": "%s", "sequence": %d,
+        // "ack": %s, "success": %s}}}` and `{"ibc_lifecycle_complete": {"ibc_timeout": {"channel": "%s",
+        // "sequence": %d}}}`) and decoded the way the VM decodes it, so that the spelling of the sudo
+        // interface is part of what is checked. A document the contract cannot decode fails the sudo call;
+        // the ICS-20 refund has happened regardless.
+        let doc = match kind {
+            0 => serde_json::json!({"ibc_lifecycle_complete": {"ibc_ack": {"channel": SIM_CHANNEL, "sequence": seq, "ack": "{\"result\":\"AQ==\"}", "success": true}}}),
+            1 => serde_json::json!({"ibc_lifecycle_complete": {"ibc_ack": {"channel": SIM_CHANNEL, "sequence": seq, "ack": "{\"error\":\"ABCI code: 1\"}", "success": false}}}),
+            _ => serde_json::json!({"ibc_lifecycle_complete": {"ibc_timeout": {"channel": SIM_CHANNEL, "sequence": seq}}}),
+        };
+        let msg: SudoMsg = match cosmwasm_std::from_json(serde_json::to_vec(&doc).unwrap()) {
+            Ok(m) => m,
+            Err(e) => {
+                return TxOut { ok: false, err: Some(format!("ibc-hooks callback document does not decode as SudoMsg: {e}")), undecodable: true, ..Default::default() };
+            }
         };
         self.sudo(msg)
     }
@@ -775,6 +783,20 @@ impl World {
             }
             let hook = bech::hook_sender(SIM_CHANNEL, native_sender, PROTO_PREFIX);
             self.credit(&hook, denom, amount);
+            // the memo carries the message as JSON text written by the native-chain operator; the two
+            // operator messages are spelled out here, anything else goes through the message's own encoder
+            let text = match &msg {
+                ExecuteMsg::ReceiveRewards {} => "{\"receive_rewards\":{}}".to_string(),
+                ExecuteMsg::ReceiveUnstakedTokens { batch_id } => format!("{{\"receive_unstaked_tokens\":{{\"batch_id\":{batch_id}}}}}"),
+                other => String::from_utf8(cosmwasm_std::to_json_vec(other).map_err(|e| e.to_string())?).map_err(|e| e.to_string())?,
+            };
+            let msg: ExecuteMsg = match cosmwasm_std::from_json(text.as_bytes()) {
+                Ok(m) => m,
+                Err(e) => {
+                    out.undecodable = true;
+                    return Err(format!("wasm-hook memo message does not decode as ExecuteMsg: {e}"));
+                }
+            };
             self.exec_inner(&hook, msg, &[(denom.to_string(), amount)], &mut out)
         })();
         self.finish(snap, res, out)
